@@ -421,3 +421,418 @@ Proof.
   - subst p. rewrite Hd in Hds. inversion Hds. subst. apply H1. exact Hn.
   - eapply H2; eassumption.
 Qed.
+
+(* ================================================================ PART 1, alias *)
+Definition alias_go (d : db) : dsdict -> list string -> res dsdict :=
+  fix go (acc : dsdict) (l : list string) : res dsdict :=
+    match l with
+    | [] => Ok acc
+    | m :: r => match dget m (datasets d) with
+                | None => Err (lib EKey)
+                | Some ex => if disjointb (dkeys acc) (dkeys ex) then go (dupdate acc ex) r
+                             else Err (lib EAssert)
+                end
+    end.
+
+Lemma get_examples_alias d name members :
+  dget name (alias d) = Some members ->
+  get_examples d name =
+  (do raw <- alias_go d [] members;
+   match raw with [] => Err (lib ERuntime) | _ => Ok (map (augment name) raw) end).
+Proof. intros H. unfold get_examples. rewrite H. reflexivity. Qed.
+
+Definition members_are (d : db) (members : list string) (exs : list dsdict) : Prop :=
+  Forall2 (fun m ex => dget m (datasets d) = Some ex) members exs.
+
+Lemma alias_go_concat d members exs :
+  members_are d members exs -> forall acc,
+  NoDup (dkeys acc ++ concat (map dkeys exs)) ->
+  alias_go d acc members = Ok (acc ++ concat exs).
+Proof.
+  intros HF. induction HF as [|m ex members exs Hm HF IH]; intros acc Hnd; simpl.
+  - rewrite app_nil_r. reflexivity.
+  - rewrite Hm. simpl in Hnd.
+    apply NoDup_app_iff in Hnd. destruct Hnd as [Hacc [Hrest Hdis]].
+    apply NoDup_app_iff in Hrest. destruct Hrest as [Hex [Hexs Hdis2]].
+    assert (Hd : disjointb (dkeys acc) (dkeys ex) = true).
+    { apply disjointb_spec. intros k Hk Hin. apply (Hdis k Hk). apply in_or_app. auto. }
+    rewrite Hd. rewrite (dupdate_disjoint _ _ Hex Hd). rewrite IH.
+    + rewrite app_assoc. reflexivity.
+    + rewrite dkeys_app. apply NoDup_app_iff. split; [|split].
+      * apply NoDup_app_iff. split; [exact Hacc|]. split; [exact Hex|].
+        intros k Hk Hin. apply (Hdis k Hk). apply in_or_app. auto.
+      * exact Hexs.
+      * intros k Hk Hin. apply in_app_or in Hk. destruct Hk as [Hk|Hk].
+        -- apply (Hdis k Hk). apply in_or_app. auto.
+        -- exact (Hdis2 k Hk Hin).
+Qed.
+
+(* 3. an alias is the concatenation of its members *)
+Theorem alias_is_concat d name members exs :
+  dget name (alias d) = Some members ->
+  Forall2 (fun m ex => dget m (datasets d) = Some ex) members exs ->
+  NoDup (concat (map dkeys exs)) ->
+  concat exs <> [] ->
+  get_examples d name = Ok (map (augment name) (concat exs)).
+Proof.
+  intros Ha HF Hnd Hne. rewrite (get_examples_alias _ _ _ Ha).
+  rewrite (alias_go_concat d members exs HF []); [|exact Hnd].
+  simpl. destruct (concat exs); [congruence | reflexivity].
+Qed.
+
+Corollary alias_ids_in_order d name members exs :
+  dget name (alias d) = Some members ->
+  Forall2 (fun m ex => dget m (datasets d) = Some ex) members exs ->
+  NoDup (concat (map dkeys exs)) -> concat exs <> [] ->
+  exists out, get_examples d name = Ok out /\ dkeys out = concat (map dkeys exs).
+Proof.
+  intros Ha HF Hnd Hne. eexists. split; [eapply alias_is_concat; eassumption|].
+  unfold dkeys at 1. rewrite map_fst_augment. rewrite concat_map. reflexivity.
+Qed.
+
+Lemma alias_go_overlap d members exs :
+  members_are d members exs -> forall acc,
+  NoDup (dkeys acc) -> Forall (fun ex => NoDup (dkeys ex)) exs ->
+  ~ NoDup (dkeys acc ++ concat (map dkeys exs)) ->
+  alias_go d acc members = Err (lib EAssert).
+Proof.
+  intros HF. induction HF as [|m ex members exs Hm HF IH]; intros acc Hacc Heach Hnot; simpl.
+  - exfalso. apply Hnot. simpl. rewrite app_nil_r. exact Hacc.
+  - rewrite Hm. inversion Heach as [|x l Hex Hexs]. subst.
+    destruct (disjointb (dkeys acc) (dkeys ex)) eqn:Hd; [|reflexivity].
+    rewrite (dupdate_disjoint _ _ Hex Hd). apply IH.
+    + rewrite dkeys_app. apply NoDup_app_iff. split; [exact Hacc|]. split; [exact Hex|].
+      apply disjointb_spec. exact Hd.
+    + exact Hexs.
+    + rewrite dkeys_app, <- app_assoc. exact Hnot.
+Qed.
+
+(* 4. members that share an example id are refused *)
+Theorem overlap_rejected d name members exs :
+  dget name (alias d) = Some members ->
+  Forall2 (fun m ex => dget m (datasets d) = Some ex) members exs ->
+  Forall (fun ex => NoDup (dkeys ex)) exs ->
+  ~ NoDup (concat (map dkeys exs)) ->
+  get_examples d name = Err (lib EAssert).
+Proof.
+  intros Ha HF Heach Hnot. rewrite (get_examples_alias _ _ _ Ha).
+  rewrite (alias_go_overlap d members exs HF []); [reflexivity | constructor | exact Heach | exact Hnot].
+Qed.
+
+Lemma shared_id_not_nodup (exs : list dsdict) : forall i j exi exj k,
+  i < j -> nth_error exs i = Some exi -> nth_error exs j = Some exj ->
+  In k (dkeys exi) -> In k (dkeys exj) -> ~ NoDup (concat (map dkeys exs)).
+Proof.
+  induction exs as [|e exs IH]; intros i j exi exj k Hij Hi Hj Hki Hkj Hnd.
+  - destruct i; discriminate.
+  - simpl in Hnd. apply NoDup_app_iff in Hnd. destruct Hnd as [_ [Hrest Hdis]].
+    destruct j as [|j]; [lia|]. simpl in Hj. destruct i as [|i]; simpl in Hi.
+    + inversion Hi. subst e. apply (Hdis k Hki). apply in_concat. exists (dkeys exj). split; [|exact Hkj].
+      apply in_map. eapply nth_error_In. exact Hj.
+    + apply (IH i j exi exj k); try assumption. lia.
+Qed.
+
+(* the same with the overlap spelled out: two different members carry the same example id *)
+Theorem overlap_rejected_ex d name members exs i j exi exj k :
+  dget name (alias d) = Some members ->
+  Forall2 (fun m ex => dget m (datasets d) = Some ex) members exs ->
+  Forall (fun ex => NoDup (dkeys ex)) exs ->
+  i < j -> nth_error exs i = Some exi -> nth_error exs j = Some exj ->
+  In k (dkeys exi) -> In k (dkeys exj) ->
+  get_examples d name = Err (lib EAssert).
+Proof.
+  intros Ha HF Heach Hij Hi Hj Hki Hkj. eapply overlap_rejected; try eassumption.
+  eapply shared_id_not_nodup; eassumption.
+Qed.
+
+(* a missing member is a KeyError (if no overlap was met before it) *)
+Theorem alias_member_missing d name members :
+  dget name (alias d) = Some members ->
+  (exists m, In m members /\ dget m (datasets d) = None) ->
+  exists c, (c = EKey \/ c = EAssert) /\ get_examples d name = Err (lib c).
+Proof.
+  intros Ha [m [Hin Hm]]. rewrite (get_examples_alias _ _ _ Ha).
+  assert (H : forall acc, exists c, (c = EKey \/ c = EAssert) /\ alias_go d acc members = Err (lib c)).
+  { clear Ha. induction members as [|m' r IH]; intros acc; [destruct Hin|]. simpl.
+    destruct (dget m' (datasets d)) as [ex|] eqn:E.
+    - destruct Hin as [Heq|Hin]; [subst; congruence|].
+      destruct (disjointb (dkeys acc) (dkeys ex)); [apply IH; exact Hin | eauto].
+    - eauto. }
+  destruct (H []) as [c [Hc Hgo]]. exists c. split; [exact Hc|]. rewrite Hgo. reflexivity.
+Qed.
+
+(* ================================================================ PART 2: heap frame *)
+Definition fresh_from (h0 : heap) (a : nat) := List.length h0 <= a.
+
+Lemma hset_length h : forall a o, List.length (hset h a o) = List.length h.
+Proof.
+  induction h as [|x r IH]; intros a o; simpl; [reflexivity|].
+  destruct a; simpl; [reflexivity | rewrite IH; reflexivity].
+Qed.
+
+Lemma hget_hset_same h : forall a o, a < List.length h -> hget (hset h a o) a = o.
+Proof.
+  unfold hget. induction h as [|x r IH]; intros a o Hlt; simpl in *; [lia|].
+  destruct a; simpl; [reflexivity | apply IH; lia].
+Qed.
+
+Lemma hget_hset_other h : forall a b o, a <> b -> hget (hset h a o) b = hget h b.
+Proof.
+  unfold hget. induction h as [|x r IH]; intros a b o Hne; simpl; [reflexivity|].
+  destruct a; simpl.
+  - destruct b; [congruence | reflexivity].
+  - destruct b; [reflexivity | apply IH; congruence].
+Qed.
+
+Lemma hget_app_old h ext a : a < List.length h -> hget (h ++ ext) a = hget h a.
+Proof. intros H. unfold hget. apply app_nth1. exact H. Qed.
+
+Lemma hget_app_new h o : hget (h ++ [o]) (List.length h) = o.
+Proof. unfold hget. rewrite app_nth2 by lia. rewrite Nat.sub_diag. reflexivity. Qed.
+
+Lemma ref_of_dget o k a : ref_of o k = Some a <-> dget k o = Some (CRef a).
+Proof.
+  unfold ref_of. destruct (dget k o) as [[x|x]|]; split; intros H; try discriminate; inversion H; reflexivity.
+Qed.
+
+(* copy_top only appends to the heap, and every reference in the copy is a fresh address *)
+Lemma copy_top_spec o : forall h h' o',
+  copy_top h o = (h', o') ->
+  (exists ext, h' = h ++ ext) /\
+  (forall k a, ref_of o' k = Some a -> List.length h <= a < List.length h').
+Proof.
+  induction o as [|[k c] r IH]; intros h h' o' H; simpl in H.
+  - inversion H. subst. split; [exists []; rewrite app_nil_r; reflexivity|].
+    intros k a Hr. discriminate.
+  - destruct (copy_cell h c) as [h1 c'] eqn:Ec.
+    destruct (copy_top h1 r) as [h2 r'] eqn:Er. inversion H. subst h' o'. clear H.
+    destruct (IH _ _ _ Er) as [[ext2 Hext2] Hrefs].
+    assert (Hc : (h1 = h /\ exists x, c' = CAtom x) \/
+                 (h1 = h ++ [hget h match c with CRef a0 => a0 | _ => 0 end] /\ c' = CRef (List.length h))).
+    { destruct c as [x|a0]; simpl in Ec; inversion Ec; subst; [left; eauto | right; auto]. }
+    assert (Hlen1 : List.length h <= List.length h1).
+    { destruct Hc as [[-> _]|[-> _]]; [lia | rewrite app_length; simpl; lia]. }
+    split.
+    + destruct Hc as [[-> _]|[-> _]]; [exists ext2; exact Hext2|].
+      exists ([hget h match c with CRef a0 => a0 | _ => 0 end] ++ ext2). rewrite Hext2, app_assoc. reflexivity.
+    + intros k0 a Hr. apply ref_of_dget in Hr. simpl in Hr.
+      assert (Hlen2 : List.length h1 <= List.length h2).
+      { rewrite Hext2, app_length. lia. }
+      destruct (String.eqb k0 k).
+      * inversion Hr. subst c'. destruct Hc as [[_ [x Hx]]|[-> Hx]]; [discriminate|].
+        inversion Hx. subst a. rewrite app_length in Hlen2. simpl in Hlen2. lia.
+      * apply ref_of_dget in Hr. apply Hrefs in Hr. lia.
+Qed.
+
+(* the loop invariant of hmerge_rest: everything below n0 is as in h0, the result object and the
+   dicts it refers to under 'datasets' / 'alias' were allocated at or above n0 *)
+Record frame_inv (h0 : heap) (hc : heap) (res : nat) : Prop := {
+  fi_old : forall a, a < List.length h0 -> hget hc a = hget h0 a;
+  fi_res : List.length h0 <= res < List.length hc;
+  fi_ds : forall a, ref_of (hget hc res) "datasets"%string = Some a -> List.length h0 <= a /\ a <> res;
+  fi_al : forall a, ref_of (hget hc res) "alias"%string = Some a -> List.length h0 <= a /\ a <> res
+}.
+
+Lemma hmerge_step_inv h0 hc res p h' :
+  frame_inv h0 hc res -> hmerge_step hc res p = Some h' -> frame_inv h0 h' res.
+Proof.
+  intros [Hold Hres Hds Hal]. unfold hmerge_step.
+  destruct (ref_of (hget hc res) "datasets"%string) as [rd|] eqn:Erd; [|discriminate].
+  destruct (ref_of (hget hc p) "datasets"%string) as [pd|] eqn:Epd; [|discriminate].
+  destruct (Hds rd eq_refl) as [Hrd1 Hrd2].
+  set (h1 := hset hc rd (dupdate (hget hc rd) (hget hc pd))).
+  assert (Hlen1 : List.length h1 = List.length hc) by apply hset_length.
+  assert (Hres1 : hget h1 res = hget hc res) by (apply hget_hset_other; exact Hrd2).
+  assert (Hold1 : forall a, a < List.length h0 -> hget h1 a = hget h0 a).
+  { intros a Ha. unfold h1. rewrite hget_hset_other by lia. apply Hold. exact Ha. }
+  assert (Inv1 : frame_inv h0 h1 res).
+  { constructor; [exact Hold1 | lia | rewrite Hres1, Erd; exact Hds | rewrite Hres1; exact Hal]. }
+  destruct (ref_of (hget h1 p) "alias"%string) as [pa|] eqn:Epa.
+  2:{ intros H. inversion H. subst h'. exact Inv1. }
+  rewrite Hres1.
+  destruct (ref_of (hget hc res) "alias"%string) as [ra|] eqn:Era.
+  - intros H. inversion H. subst h'. clear H.
+    destruct (Hal ra eq_refl) as [Hra1 Hra2].
+    assert (Hres2 : hget (hset h1 ra (dupdate (hget h1 ra) (hget h1 pa))) res = hget hc res).
+    { rewrite hget_hset_other by exact Hra2. exact Hres1. }
+    constructor.
+    + intros a Ha. rewrite hget_hset_other by lia. apply Hold1. exact Ha.
+    + rewrite hset_length. lia.
+    + rewrite Hres2, Erd. exact Hds.
+    + rewrite Hres2, Era. exact Hal.
+  - unfold halloc. cbv beta iota zeta.
+    match goal with |- context [hset ?X res (dset _ _ _)] => remember X as h2 eqn:Eh2 end.
+    remember (List.length h1) as ra eqn:Era'.
+    match goal with |- context [hset ?X ra _] => remember X as h3 eqn:Eh3 end.
+    intros H. injection H as H. subst h'.
+    assert (Hlen2 : List.length h2 = S (List.length hc)).
+    { rewrite Eh2, app_length. simpl. lia. }
+    assert (Hlen3 : List.length h3 = S (List.length hc)).
+    { rewrite Eh3, hset_length. exact Hlen2. }
+    assert (Hra : ra <> res) by lia.
+    assert (Hres2 : hget h2 res = hget hc res).
+    { rewrite Eh2, hget_app_old by lia. exact Hres1. }
+    assert (Hres3 : hget h3 res = dset "alias"%string (CRef ra) (hget hc res)).
+    { rewrite Eh3, hget_hset_same by lia. rewrite Hres2. reflexivity. }
+    assert (Hres4 : hget (hset h3 ra (dupdate (hget h3 ra) (hget h3 pa))) res
+                    = dset "alias"%string (CRef ra) (hget hc res)).
+    { rewrite hget_hset_other by exact Hra. exact Hres3. }
+    constructor.
+    + intros a Ha. rewrite hget_hset_other by lia.
+      rewrite Eh3, hget_hset_other by lia.
+      rewrite Eh2, hget_app_old by lia. apply Hold1. exact Ha.
+    + rewrite hset_length. lia.
+    + rewrite Hres4. intros a Ha. apply ref_of_dget in Ha.
+      rewrite dget_dset_other in Ha by discriminate. apply ref_of_dget in Ha. rewrite Erd in Ha. apply Hds. exact Ha.
+    + rewrite Hres4. intros a Ha. apply ref_of_dget in Ha.
+      rewrite dget_dset_same in Ha. inversion Ha. subst a. split; [lia | exact Hra].
+Qed.
+
+Lemma hmerge_rest_inv h0 res l : forall hc h',
+  frame_inv h0 hc res -> hmerge_rest hc res l = Some h' -> frame_inv h0 h' res.
+Proof.
+  induction l as [|p r IH]; intros hc h' Inv H; simpl in H.
+  - inversion H. subst. exact Inv.
+  - destruct (hmerge_step hc res p) as [h1|] eqn:E; [|discriminate].
+    eapply IH; [|exact H]. eapply hmerge_step_inv; eassumption.
+Qed.
+
+Lemma hmerge_multi_inv h p0 p1 rest h' res :
+  hmerge h (p0 :: p1 :: rest) = Some (h', res) -> frame_inv h h' res.
+Proof.
+  unfold hmerge. intros H.
+  destruct (copy_top h (hget h p0)) as [h1 top] eqn:Ec. unfold halloc in H. cbv beta iota in H.
+  destruct (hmerge_rest (h1 ++ [top]) (List.length h1) (p1 :: rest)) as [hf|] eqn:Er; [|discriminate].
+  injection H as H1 H2. subst hf res.
+  destruct (copy_top_spec _ _ _ _ Ec) as [[ext Hext] Hrefs].
+  assert (Hlen : List.length h <= List.length h1) by (rewrite Hext, app_length; lia).
+  assert (Inv : frame_inv h (h1 ++ [top]) (List.length h1)).
+  { constructor.
+    - intros b Hb. rewrite hget_app_old by lia. rewrite Hext. apply hget_app_old. exact Hb.
+    - rewrite app_length. simpl. lia.
+    - rewrite hget_app_new. intros b Hb. apply Hrefs in Hb. lia.
+    - rewrite hget_app_new. intros b Hb. apply Hrefs in Hb. lia. }
+  exact (hmerge_rest_inv _ _ _ _ _ Inv Er).
+Qed.
+
+(* the frame property needs no assumption on the parts at all *)
+Theorem hmerge_frame_strong h parts h' res :
+  hmerge h parts = Some (h', res) ->
+  forall a, a < List.length h -> hget h' a = hget h a.
+Proof.
+  intros H a Ha. destruct parts as [|p0 [|p1 rest]].
+  - discriminate.
+  - injection H as H1 H2. subst. reflexivity.
+  - apply (fi_old _ _ _ (hmerge_multi_inv _ _ _ _ _ _ H)). exact Ha.
+Qed.
+
+(* 8. building a merged description never changes a dictionary object that existed before *)
+Theorem hmerge_frame h parts h' res :
+  hmerge h parts = Some (h', res) ->
+  (forall p, In p parts -> p < List.length h) ->
+  (forall p a, In p parts -> ref_of (hget h p) "datasets"%string = Some a -> a < List.length h) ->
+  (forall p a, In p parts -> ref_of (hget h p) "alias"%string = Some a -> a < List.length h) ->
+  forall a, a < List.length h -> hget h' a = hget h a.
+Proof. intros H _ _ _. eapply hmerge_frame_strong. exact H. Qed.
+
+(* in particular the sources: top-level dicts and their 'datasets' / 'alias' dicts *)
+Corollary hmerge_sources_untouched h parts h' res :
+  hmerge h parts = Some (h', res) ->
+  (forall p, In p parts -> p < List.length h) ->
+  (forall p a, In p parts -> ref_of (hget h p) "datasets"%string = Some a -> a < List.length h) ->
+  (forall p a, In p parts -> ref_of (hget h p) "alias"%string = Some a -> a < List.length h) ->
+  forall p, In p parts ->
+    hget h' p = hget h p /\
+    (forall a, ref_of (hget h p) "datasets"%string = Some a -> hget h' a = hget h a) /\
+    (forall a, ref_of (hget h p) "alias"%string = Some a -> hget h' a = hget h a).
+Proof.
+  intros H Hp Hd Hal p Hin. repeat split.
+  - eapply hmerge_frame_strong; [exact H | auto].
+  - intros a Ha. eapply hmerge_frame_strong; [exact H | eauto].
+  - intros a Ha. eapply hmerge_frame_strong; [exact H | eauto].
+Qed.
+
+(* with several parts the merged description is a new object with new 'datasets' / 'alias' dicts *)
+Theorem hmerge_result_fresh h p0 p1 rest h' res :
+  hmerge h (p0 :: p1 :: rest) = Some (h', res) ->
+  fresh_from h res /\
+  (forall a, ref_of (hget h' res) "datasets"%string = Some a -> fresh_from h a) /\
+  (forall a, ref_of (hget h' res) "alias"%string = Some a -> fresh_from h a).
+Proof.
+  intros H. destruct (hmerge_multi_inv _ _ _ _ _ _ H) as [_ Hres Hds Hal].
+  unfold fresh_from. repeat split.
+  - lia.
+  - intros a Ha. apply Hds in Ha. lia.
+  - intros a Ha. apply Hal in Ha. lia.
+Qed.
+
+Theorem hmerge_single h p : hmerge h [p] = Some (h, p).
+Proof. reflexivity. Qed.
+
+(* 9. negative control: without the copy of the first part the first source's 'datasets' dict is mutated *)
+Definition hmerge_nocopy (h : heap) (parts : list nat) : option (heap * nat) :=
+  match parts with
+  | [] => None
+  | [p] => Some (h, p)
+  | p0 :: rest =>
+      let '(h2, res) := halloc h (hget h p0) in
+      match hmerge_rest h2 res rest with Some h' => Some (h', res) | None => None end
+  end.
+
+Definition ex_heap : heap :=
+  [ [("datasets"%string, CRef 1)];          (* 0: first description *)
+    [("a"%string, CAtom 10)];                (* 1: its 'datasets' dict *)
+    [("datasets"%string, CRef 3)];          (* 2: second description *)
+    [("b"%string, CAtom 20)] ].              (* 3: its 'datasets' dict *)
+
+Example nocopy_mutates_source :
+  hget ex_heap 1 = [("a"%string, CAtom 10)] /\
+  (match hmerge_nocopy ex_heap [0; 2] with
+   | Some (h', _) => hget h' 1 = [("a"%string, CAtom 10); ("b"%string, CAtom 20)]
+   | None => False
+   end) /\
+  (match hmerge ex_heap [0; 2] with
+   | Some (h', res) =>
+       hget h' 1 = [("a"%string, CAtom 10)] /\
+       ref_of (hget h' res) "datasets"%string = Some 4 /\
+       hget h' 4 = [("a"%string, CAtom 10); ("b"%string, CAtom 20)]
+   | None => False
+   end).
+Proof. vm_compute. repeat split; reflexivity. Qed.
+
+(* ================================================================ assumptions *)
+Print Assumptions dget_dset_same.
+Print Assumptions dget_dset_other.
+Print Assumptions dkeys_dset.
+Print Assumptions dupdate_disjoint.
+Print Assumptions dupdate_disjoint_rev.
+Print Assumptions dget_app.
+Print Assumptions disjointb_spec.
+Print Assumptions inb_spec.
+Print Assumptions augment_spec.
+Print Assumptions get_dataset_content.
+Print Assumptions alias_is_concat.
+Print Assumptions alias_ids_in_order.
+Print Assumptions overlap_rejected.
+Print Assumptions overlap_rejected_ex.
+Print Assumptions alias_member_missing.
+Print Assumptions unknown_name_rejected.
+Print Assumptions empty_dataset_rejected.
+Print Assumptions list_is_concat.
+Print Assumptions empty_list_rejected.
+Print Assumptions duplicate_dataset_rejected.
+Print Assumptions duplicate_alias_rejected.
+Print Assumptions extra_keys_rejected.
+Print Assumptions merge_step_keeps.
+Print Assumptions merge_step_keeps_alias.
+Print Assumptions merge_keeps_first.
+Print Assumptions merge_keeps_every.
+Print Assumptions hmerge_frame_strong.
+Print Assumptions hmerge_frame.
+Print Assumptions hmerge_sources_untouched.
+Print Assumptions hmerge_result_fresh.
+Print Assumptions hmerge_single.
+Print Assumptions nocopy_mutates_source.
+Print Assumptions memo_shared_while_alive.
+Print Assumptions memo_fresh_ids.
+Print Assumptions memo_inv_step.
